@@ -16,12 +16,15 @@
           (rename (srfi 142)
                   (bitwise-if bitwise-merge)
                   (any-bit-set? any-bits-set?)
-                  (every-bit-set? all-bits-set?)
-                  (bit-field-any? test-bit-field?)
-                  (bit-field-clear clear-bit-field)))
+                  (every-bit-set? all-bits-set?)))
   (begin
     (define (mask len)
       (- (arithmetic-shift 1 len) 1))
+    ;; SRFI 33 takes (size position n), not (n start end)
+    (define (test-bit-field? size position n)
+      (bit-field-any? n position (+ position size)))
+    (define (clear-bit-field size position n)
+      (bit-field-clear n position (+ position size)))
     (define (extract-bit-field size position n)
       (bitwise-and (arithmetic-shift n (- position)) (mask size)))
     (define (replace-bit-field size position newfield n)
